@@ -173,15 +173,15 @@ Proof.
          (Hc1 & Hc2 & Hc3 & Hpre & Hm0 & Hrne & Hbfc & Hmf0 & Hm0a & Hm0l & Hfitn) H.
   set (pre := firstn c newchain) in *.
   assert (Eold : is_chain st = pre ++ skipn c (is_chain st)).
-  { unfold pre. rewrite <- Hpre. symmetry. apply firstn_skipn. }
+  { rewrite <- Hpre. symmetry. apply firstn_skipn. }
   assert (Enew : newchain = pre ++ skipn c newchain) by (symmetry; apply firstn_skipn).
   destruct (layout_blocks P 0 pre) as [la e1] eqn:Ela. cbn [snd] in Hm0.
   rewrite Eold, layout_blocks_app, Ela in Hlay.
   destruct (layout_blocks P e1 (skipn c (is_chain st))) as [lbo eo] eqn:Elbo. injection Hlay as <- <-.
-  unfold LogIndex.render_head in H. rewrite Enew at 1. rewrite layout_blocks_app, Ela in H.
   destruct (layout_blocks P e1 (skipn c newchain)) as [lbn en] eqn:Elbn.
   assert (Hlayn : layout_blocks P 0 newchain = (la ++ lbn, en)).
   { rewrite Enew, layout_blocks_app, Ela, Elbn. reflexivity. }
+  unfold LogIndex.render_head in H. rewrite Hlayn in H.
   match type of H with match ?o with _ => _ end = _ => destruct o as [newmaps|] eqn:Enm end; [|discriminate].
   injection H as <-. unfold inv. cbn [is_chain is_ix is_rg].
   destruct (layout_blocks_spec P _ _ _ _ Ela) as (Hbsa & Hrela & _).
@@ -240,7 +240,8 @@ Proof.
   { rewrite (opt_all_length _ _ Enm), map_length, N_seq_length. reflexivity. }
   split.
   - split; [exact Hptrs|]. split; [exact Hend|]. cbn [r_mfirst r_mafter].
-    intros m Hm1 Hm2. set (i := N.to_nat m). unfold ix_rows. cbn [ix_maps]. fold i.
+    intros m Hm1 Hm2. change (mf <= m) in Hm1.
+    set (i := N.to_nat m). unfold ix_rows. cbn [ix_maps]. fold i.
     assert (Hlf : length (firstn (N.to_nat mf) (ix_maps (is_ix st))) = N.to_nat mf)
       by (apply firstn_length_le; lia).
     destruct (N.ltb_spec m (r_mfirst (is_rg st))) as [Hlt|Hge].
